@@ -1,0 +1,93 @@
+/**
+ * @file verif_hook.h
+ * @brief Instrumentation points for external verification harnesses.
+ * @details Everything in this file is inert unless YAKUSHIMA_VERIF is defined:
+ * with the guard off every macro expands to ((void)0) and nothing is declared.
+ * With the guard on, the harness that includes yakushima must define the
+ * functions declared in namespace yakushima::verif (one definition per binary).
+ */
+
+#pragma once
+
+#ifdef YAKUSHIMA_VERIF
+
+#include <cstddef>
+#include <cstdint>
+
+namespace yakushima::verif {
+
+/**
+ * kind of a yield point = access | category.
+ */
+enum : int {
+    Y_LOAD = 0,
+    Y_STORE = 1,
+    Y_CAS = 2,
+    Y_SPIN = 3,  // the caller found a lock / dirty bit and is about to retry
+    Y_SLEEP = 4, // the caller is about to sleep
+    Y_ACCESS_MASK = 7,
+    Y_CAT_NODE = 0 << 4,    // tree nodes, root pointer, root lock
+    Y_CAT_SESSION = 1 << 4, // thread_info slots
+    Y_CAT_EPOCH = 2 << 4,   // global epoch / gc epoch
+    Y_CAT_GC = 3 << 4,      // retire queues
+    Y_CAT_MASK = 7 << 4,
+};
+
+enum : int {
+    EV_RETIRE_VALUE = 1, // obj = block, a = tag epoch, b = size
+    EV_RETIRE_NODE = 2,  // obj = node, a = tag epoch
+    EV_RECLAIM_VALUE = 3, // obj = block, a = tag epoch
+    EV_RECLAIM_NODE = 4,  // obj = node, a = tag epoch
+    EV_ENTER_OK = 5,      // obj = slot, a = published begin epoch
+    EV_LEAVE = 6,         // obj = slot
+    EV_PERM_STORE = 7,    // obj = permutation, a = new body
+    EV_EPOCH_INC = 8,     // a = epoch before increment
+    EV_GC_EPOCH_SET = 9,  // a = new gc epoch
+    EV_SLOT_CLAIM = 10,   // obj = slot (successful CAS of running_)
+    EV_SLOT_RELEASE = 11, // obj = slot (running_ := false)
+    EV_FIN_RECLAIM_VALUE = 12, // obj = block, freed by garbage_collection::fin
+    EV_FIN_RECLAIM_NODE = 13,  // obj = node, freed by garbage_collection::fin
+};
+
+enum : int {
+    TH_EPOCH = 1,
+    TH_GC = 2,
+};
+
+void yield(int kind, const void* addr) noexcept;
+void event(int ev, const void* obj, std::uint64_t a, std::uint64_t b) noexcept;
+/** @return true if the harness performed the sleep virtually. */
+bool sleep_hook(std::size_t ms) noexcept;
+void thread_begin(int kind) noexcept;
+void thread_end(int kind) noexcept;
+
+} // namespace yakushima::verif
+
+#define YAKUSHIMA_VERIF_YIELD(kind, addr)                                      \
+    do {                                                                       \
+        using namespace ::yakushima::verif; /* NOLINT */                       \
+        ::yakushima::verif::yield((kind), static_cast<const void*>(addr));     \
+    } while (false) // NOLINT
+#define YAKUSHIMA_VERIF_EVENT(ev, obj, a, b)                                   \
+    do {                                                                       \
+        using namespace ::yakushima::verif; /* NOLINT */                       \
+        ::yakushima::verif::event((ev), static_cast<const void*>(obj),         \
+                                  static_cast<std::uint64_t>(a),               \
+                                  static_cast<std::uint64_t>(b));              \
+    } while (false) // NOLINT
+#define YAKUSHIMA_VERIF_SLEEP(ms)                                              \
+    if (::yakushima::verif::sleep_hook(ms)) return // NOLINT
+#define YAKUSHIMA_VERIF_THREAD_BEGIN(kind)                                     \
+    ::yakushima::verif::thread_begin(::yakushima::verif::kind) // NOLINT
+#define YAKUSHIMA_VERIF_THREAD_END(kind)                                       \
+    ::yakushima::verif::thread_end(::yakushima::verif::kind) // NOLINT
+
+#else
+
+#define YAKUSHIMA_VERIF_YIELD(kind, addr) ((void) 0)        // NOLINT
+#define YAKUSHIMA_VERIF_EVENT(ev, obj, a, b) ((void) 0)     // NOLINT
+#define YAKUSHIMA_VERIF_SLEEP(ms) ((void) 0)                // NOLINT
+#define YAKUSHIMA_VERIF_THREAD_BEGIN(kind) ((void) 0)       // NOLINT
+#define YAKUSHIMA_VERIF_THREAD_END(kind) ((void) 0)         // NOLINT
+
+#endif
